@@ -3,7 +3,7 @@
    proofs as in the C01 package, Sem/LibProofs.v).  Methods with callbacks: the two programs apply
    closures with different fuel and the optimized one may be inexact where the other is exact, so
    the combinators are related in the weaker sense [wrel], for decided left-hand sides. *)
-From P2 Require Import Base.Prelude Base.PreludeProofs Sem.Num Sem.Syntax Sem.Ops Sem.Lib Sem.Ref Sem.Gen Sem.Sim Sem.RelProofs Sem.Opt Sem.OptRel Sem.OptRelProofs Sem.OptOpsProofs Sem.LibDataProofs.
+From P2 Require Import Base.Prelude Base.PreludeProofs Sem.Num Sem.Syntax Sem.Ops Sem.Lib Sem.Ref Sem.Gen Sem.Sim Sem.RelProofs Sem.Opt Sem.OptRel Sem.OptRelProofs Sem.OptOpsProofs Sem.LibDataProofs Sem.StrLibProofs.
 Require Import Lia.
 Local Open Scope Z_scope.
 
@@ -139,6 +139,29 @@ Proof.
     constructor. constructor; [split; auto|exact Hm]. }
   destruct (str_eqb mname n_isAvail). { apply all_avail_rel; auto. }
   constructor.
+Qed.
+
+
+(* first-order string methods (Sem/StrLib.v): related arguments have the same first-order view and
+   the result is a first-order value *)
+Lemma sarg_of_rel v v' : vrel v v' -> sarg_of v = sarg_of v'.
+Proof. intros H; inv H; reflexivity. Qed.
+
+Lemma sargs_rel args args' : Forall2 vrel args args' -> map sarg_of args = map sarg_of args'.
+Proof. induction 1 as [|v v' r r' Hv Hr IH]; cbn [map]; [reflexivity|]. rewrite (sarg_of_rel _ _ Hv), IH. reflexivity. Qed.
+
+Lemma sres_val_rel r : vrel (sres_val r) (sres_val r).
+Proof.
+  destruct r as [s|z|b|l]; cbn [sres_val]; try constructor.
+  induction l as [|x l IH]; cbn [map]; constructor; [constructor|exact IH].
+Qed.
+
+Lemma run_str_method_rel mname s args args' :
+  Forall2 vrel args args' -> orel (run_str_method mname s args) (run_str_method mname s args').
+Proof.
+  intros H. rewrite (run_str_method_same _ _ _ _ (sargs_rel _ _ H)).
+  destruct (run_str_method mname s args') eqn:E; try constructor.
+  destruct (run_str_method_shape _ _ _ _ E) as [r ->]. apply sres_val_rel.
 Qed.
 
 Section WithApps.
@@ -395,6 +418,20 @@ Proof.
     rewrite (is_func_rel _ _ _ Hw). destruct (is_func w' 2); [|intros _; rr; constructor].
     inv Hv; try (intros _; rr; constructor). intros D.
     eapply wrel_bind; [exact D|intros; apply merge_app_w; auto|intros; rr; repeat constructor; auto]. }
+  destruct (str_eqb mname n_visit).
+  { destruct H as [|v v' r r' Hv Hr]; [intros _; rr; constructor|].
+    destruct Hr as [|w w' r r' Hw Hr2]; [intros _; rr; constructor|].
+    destruct Hr2; [|intros _; rr; constructor].
+    rewrite (is_func_rel _ _ _ Hw). destruct (is_func w' 2); [|intros _; rr; constructor].
+    apply fold_app_w; auto. }
+  destruct (str_eqb mname n_eval). { rr. constructor. constructor. exact Hl. }
+  destruct (str_eqb mname n_set).
+  { rr. destruct H as [|v v' r r' Hv Hr]; [constructor|].
+    destruct Hr as [|w w' r r' Hw Hr2]; [inv Hv; constructor|].
+    destruct Hr2; inv Hv; try (cbn; constructor; fail).
+    rewrite <- (Forall2_length' _ _ _ Hl).
+    destruct ((z <? 0) || (Z.of_nat (length l) <=? z)); constructor. constructor.
+    apply Forall2_app'; [apply Forall2_firstn; auto|]. constructor; [auto|apply Forall2_skipn; auto]. }
   rr. constructor.
 Qed.
 
@@ -408,12 +445,13 @@ Proof.
   - rr. destruct (str_eqb mname n_string); [|constructor]. cbn.
     destruct (fl_to_str f); repeat constructor.
   - rr. destruct (str_eqb mname n_len); [repeat constructor|].
-    destruct (str_eqb mname n_string); repeat constructor.
+    destruct (str_eqb mname n_string); [repeat constructor|].
+    apply run_str_method_rel; auto.
   - rr. destruct (str_eqb mname n_string); [|constructor]. cbn. destruct b; repeat constructor.
   - rr. constructor.
   - apply run_list_method_w; auto.
   - rr. apply run_map_method_rel; auto.
-  - rr. constructor.
+  - rr. destruct (str_eqb mname n_args); repeat constructor.
 Qed.
 
 End WithApps.
